@@ -288,6 +288,7 @@ def applyEntry {α} (w : World α) (c : Ctx α) (e : Entry α) (args : List α) 
   | .proj base slots =>
     match lookupCtx c base with
     | none => (.err .undefined, log)
+    | some (.proj _ _) => (.err .unsupported, log)   -- projection of a projection: C03, not modelled here
     | some b =>
       match allSome (fill slots args) with
       | none => (.unapplied, log)
